@@ -517,11 +517,14 @@ func (i *interpreter) logStore(addr *value) {
 	if why, ok := i.run.frozen[addr]; ok {
 		i.frozenWrite(why)
 	}
+	if i.registry[addr] {
+		i.frozenWrite("shared-definition")
+	}
 	i.run.undo = append(i.run.undo, undoRec{addr: addr, old: *addr})
 }
 
 func (i *interpreter) logMap(m *omap, k, old value, had bool) {
-	if i.run == nil {
+	if i.run == nil || i.importing {
 		return
 	}
 	i.run.undo = append(i.run.undo, undoRec{m: m, key: k, old: old, had: had})
